@@ -11,55 +11,7 @@ sys.path.insert(0, "/verif")
 from sa.model import Program, AnalysisError            # noqa: E402
 from sa import selfcheck                               # noqa: E402
 
-CMP = {ast.Lt: ast.LtE, ast.LtE: ast.Lt, ast.Gt: ast.GtE, ast.GtE: ast.Gt, ast.Eq: ast.NotEq, ast.NotEq: ast.Eq}
-BIN = {ast.Add: ast.Sub, ast.Sub: ast.Add, ast.Mult: ast.FloorDiv, ast.Div: ast.Mult, ast.FloorDiv: ast.Div}
-
-
-def mutants_of(fn: ast.FunctionDef):
-    """Yields (description, apply(tree_copy_fn) -> None) as index-addressed edits."""
-    nodes = list(ast.walk(fn))
-    out = []
-    for i, n in enumerate(nodes):
-        if isinstance(n, ast.Compare) and len(n.ops) == 1 and type(n.ops[0]) in CMP:
-            out.append((i, "cmp", f"L{n.lineno}: {ast.unparse(n)} -> {CMP[type(n.ops[0])].__name__}"))
-        if isinstance(n, ast.BinOp) and type(n.op) in BIN:
-            out.append((i, "bin", f"L{n.lineno}: {ast.unparse(n)} -> {BIN[type(n.op)].__name__}"))
-        if isinstance(n, ast.AugAssign) and type(n.op) in BIN:
-            out.append((i, "aug", f"L{n.lineno}: {ast.unparse(n)} -> {BIN[type(n.op)].__name__}"))
-        if isinstance(n, ast.Constant) and isinstance(n.value, int) and not isinstance(n.value, bool) and -2 <= n.value <= 24:
-            out.append((i, "const", f"L{n.lineno}: constant {n.value} -> {n.value + 1}"))
-        if isinstance(n, ast.Constant) and isinstance(n.value, bool):
-            out.append((i, "bool", f"L{n.lineno}: constant {n.value} -> {not n.value}"))
-        if isinstance(n, (ast.Expr, ast.Assign, ast.AugAssign)) and not (isinstance(n, ast.Expr) and isinstance(n.value, ast.Constant)):
-            out.append((i, "del", f"L{n.lineno}: delete `{ast.unparse(n)[:70]}`"))
-        if isinstance(n, (ast.If, ast.While)):
-            out.append((i, "neg", f"L{n.lineno}: negate `{ast.unparse(n.test)[:70]}`"))
-        if isinstance(n, (ast.Continue, ast.Break)):
-            out.append((i, "delflow", f"L{n.lineno}: delete {type(n).__name__.lower()}"))
-    return out
-
-
-def apply(fn: ast.FunctionDef, idx: int, kind: str):
-    nodes = list(ast.walk(fn))
-    n = nodes[idx]
-    if kind == "cmp":
-        n.ops = [CMP[type(n.ops[0])]()]
-    elif kind in ("bin", "aug"):
-        n.op = BIN[type(n.op)]()
-    elif kind == "const":
-        n.value = n.value + 1
-    elif kind == "bool":
-        n.value = not n.value
-    elif kind == "neg":
-        n.test = ast.UnaryOp(op=ast.Not(), operand=n.test)
-    elif kind in ("del", "delflow"):
-        # replace the statement by `pass` in its parent block
-        for p in ast.walk(fn):
-            for fld in ("body", "orelse", "finalbody"):
-                b = getattr(p, fld, None)
-                if isinstance(b, list) and n in b:
-                    b[b.index(n)] = ast.copy_location(ast.Pass(), n)
-                    return
+from sa.mutops import CMP, BIN, mutants_of, apply     # noqa: E402,F401
 
 
 _P = None
